@@ -26,6 +26,7 @@ func init() {
 				NeedCounters: []string{"retx-timer", "retx-carrier-lost", "retx-deferred", "no-retx-after-reply", "no-retx-after-cancel"}},
 			{Name: fmt.Sprintf("req-retry-hist-R0-D%d", d), Mode: "hist", Reset: kit.ResetGlobals, Body: func() { hist(d, 0) },
 				NeedCounters: []string{"cancel-on-loss"}},
+			{Name: fmt.Sprintf("req-slow-peer-hist-D%d", d), Mode: "hist", Reset: kit.ResetGlobals, Body: func() { SlowPeerHist(d) }},
 			{Name: "req-retry-sched-timer-vs-reply", Mode: "sched", Bound: map[string]int{"quick": 1, "thorough": 2}[tier], Reset: kit.ResetGlobals,
 				Cfg: cfgEarly(), Body: schedTimerVsReply},
 		}
@@ -513,4 +514,149 @@ func schedTimerVsReply() {
 		kit.Failf("tx-after-answered", "request re-sent at %v after its reply had been delivered to the application", extra[0].At)
 	}
 	kit.Observe("tx=%d", len(all))
+}
+
+// ---------------------------------------------------------------------------
+// slow peers: connections that take a message only when the harness says so.  The safety clauses
+// only: whatever is on the wire belongs to a request, byte-identical, never after the request was
+// answered / cancelled; Recv returns the reply to the current request or nothing; no crash, no wedge.
+
+// SlowPeerHist is also registered under C11 (robustness of the request state machine).
+func SlowPeerHist(depth int) {
+	R := 10 * time.Second
+	s, err := req.NewSocket()
+	if err != nil {
+		kit.Failf("setup", "NewSocket: %v", err)
+	}
+	_ = s.SetOption(mangos.OptionRetryTime, R)
+	ep := vt.Get("slow")
+	ep.HoldNew = true
+	if err := s.Listen("vt://slow"); err != nil {
+		kit.Failf("setup", "Listen: %s", kit.ErrName(err))
+	}
+	pipes := []*vt.Pipe{ep.Connect()}
+	seen := []int{0}
+	kit.Quiesce()
+	type rq struct {
+		id      uint32
+		payload string
+		dead    string
+		deadSeq int // logical time at which the application received the reply
+	}
+	var reqs []*rq
+	var cur *rq
+	var answer string
+	hasAns := false
+	var recv *kit.Call
+	var sends []*kit.Call
+	n := 0
+	account := func() {
+		for i, p := range pipes {
+			l := p.SentLog()
+			for _, sm := range l[seen[i]:] {
+				var r *rq
+				for _, x := range reqs {
+					if len(sm.Data) >= 4 && string(sm.Data[4:]) == x.payload {
+						r = x
+					}
+				}
+				if r == nil {
+					kit.Failf("tx-unknown", "transmission %x belongs to no request", sm.Data)
+				}
+				id := binary.BigEndian.Uint32(sm.Data)
+				if r.id == 0 {
+					r.id = id
+				} else if r.id != id {
+					kit.Failf("tx-bytes-differ", "request %q re-sent with id %08x, first transmission had %08x", r.payload, id, r.id)
+				}
+				// (a transmission handed to a slow connection before the answer may complete after it)
+				if r.dead == "answered-and-received" && sm.EnterSeq > r.deadSeq {
+					kit.Failf("tx-after-answered", "request %q was handed to a connection again (at %v) after its reply had been delivered to the application", r.payload, sm.At)
+				}
+			}
+			seen[i] = len(l)
+		}
+	}
+	events := func() []kit.Event {
+		evs := []kit.Event{
+			{Name: "send", Run: func() {
+				n++
+				r := &rq{payload: fmt.Sprintf("slow-q%d", n)}
+				reqs = append(reqs, r)
+				if cur != nil && cur.dead == "" {
+					cur.dead = "cancelled"
+				}
+				cur = r
+				hasAns = false
+				if recv != nil {
+					recv.Name = "cancelled"
+				}
+				sends = append(sends, kit.Start("Send", func() (interface{}, error) { return nil, s.Send([]byte(r.payload)) }))
+			}},
+			{Name: "advance:R", Run: func() { kit.Sleep(R) }},
+		}
+		for i, p := range pipes {
+			i, p := i, p
+			if !p.Alive() {
+				continue
+			}
+			evs = append(evs, kit.Event{Name: fmt.Sprintf("take:p%d", i), Run: func() { p.Take(1) }})
+			if cur != nil && cur.id != 0 && cur.dead == "" {
+				evs = append(evs, kit.Event{Name: fmt.Sprintf("reply:p%d", i), Run: func() {
+					b := make([]byte, 4)
+					binary.BigEndian.PutUint32(b, cur.id)
+					answer = "ans-" + cur.payload
+					hasAns = true
+					cur.dead = "answered"
+					p.Deliver(append(b, answer...))
+				}})
+			}
+		}
+		if len(pipes) < 2 {
+			evs = append(evs, kit.Event{Name: "connect", Run: func() { pipes = append(pipes, ep.Connect()); seen = append(seen, 0) }})
+		}
+		if recv == nil {
+			evs = append(evs, kit.Event{Name: "recv", Run: func() {
+				recv = kit.Start("Recv", func() (interface{}, error) { b, err := s.Recv(); return string(b), err })
+			}})
+		}
+		return evs
+	}
+	settle := func() {
+		account()
+		if recv != nil && recv.Done() {
+			switch {
+			case recv.Err == nil:
+				if !hasAns || recv.Val.(string) != answer {
+					kit.Failf("recv-wrong-reply", "Recv returned %q; the reply to the current request is %q (arrived: %v)", recv.Val, answer, hasAns)
+				}
+				hasAns = false
+				if cur != nil {
+					cur.dead = "answered-and-received"
+					cur.deadSeq = vt.Tick()
+				}
+			case recv.Err == mangos.ErrCanceled || recv.Err == mangos.ErrProtoState:
+			default:
+				kit.Failf("recv-error", "Recv returned %s", kit.ErrName(recv.Err))
+			}
+			recv = nil
+		} else if recv != nil && hasAns && recv.Name != "cancelled" {
+			kit.Failf("recv-blocked-answered", "the reply to the current request arrived but Recv still blocks")
+		}
+	}
+	kit.Hist(depth, events, settle)
+	// everybody takes everything now: nothing may crash or wedge
+	for _, p := range pipes {
+		p.Hold(false)
+	}
+	kit.Quiesce()
+	kit.Sleep(R)
+	kit.Quiesce()
+	account()
+	c := kit.Start("GetOption", func() (interface{}, error) { _, err := s.GetOption(mangos.OptionRetryTime); return nil, err })
+	kit.Quiesce()
+	if !c.Done() {
+		kit.Failf("socket-wedged", "GetOption blocks at the end of the history")
+	}
+	kit.Must("Close", func() { _ = s.Close() })
 }
